@@ -46,6 +46,42 @@ func (p c01POCSP) CheckApplies(*ocsp.Response) bool        { return true }
 func (p c01POCSP) Execute(*ocsp.Response) *lint.LintResult { return p.res() }
 
 func c01Solo(c *mon.Ctx) {
+	// first use of the global registry for every kind BEFORE anything is added (listings may be cached on first use)
+	for _, k := range []corpus.Kind{corpus.Cert, corpus.CRL, corpus.OCSP} {
+		if idxs := W.ByKind[k]; len(idxs) > 0 {
+			c01Judge(c, W.Objs[idxs[0]], regCfg{lint.GlobalRegistry(), "global, before additions"})
+		}
+	}
+	defer func() {
+		// ... and again afterwards: every lint registered meanwhile must have exactly one result
+		for wave := 0; wave < 2; wave++ {
+			for _, k := range []corpus.Kind{corpus.Cert, corpus.CRL, corpus.OCSP} {
+				if idxs := W.ByKind[k]; len(idxs) > 0 {
+					c01Judge(c, W.Objs[idxs[len(idxs)/2]], regCfg{lint.GlobalRegistry(), fmt.Sprintf("global, after additions (wave %d)", wave)})
+					c01Judge(c, W.Objs[idxs[len(idxs)/2]], regCfg{nil, "default-entry-point"})
+					c.R.Count("global_runs_after_additions", 1)
+				}
+			}
+			if wave == 0 { // a late second wave of additions, one per kind
+				m := func(n string) lint.LintMetadata {
+					return lint.LintMetadata{Name: n, Description: "verif late addition", Citation: "verif", Source: lint.Community}
+				}
+				judgeAll := func(when string) {
+					for _, k := range []corpus.Kind{corpus.Cert, corpus.CRL, corpus.OCSP} {
+						if idxs := W.ByKind[k]; len(idxs) > 0 {
+							c01Judge(c, W.Objs[idxs[len(idxs)/3]], regCfg{lint.GlobalRegistry(), "global, " + when})
+						}
+					}
+				}
+				lint.RegisterCertificateLint(&lint.CertificateLint{LintMetadata: m("n_verif_c01_late_cert"), Lint: func() lint.CertificateLintInterface { return c01PCert{c01P{st: lint.Notice}} }})
+				judgeAll("after a late certificate lint")
+				lint.RegisterRevocationListLint(&lint.RevocationListLint{LintMetadata: m("n_verif_c01_late_crl"), Lint: func() lint.RevocationListLintInterface { return c01PCRL{c01P{st: lint.Notice}} }})
+				judgeAll("after a late CRL lint")
+				lint.RegisterOcspResponseLint(&lint.OcspResponseLint{LintMetadata: m("n_verif_c01_late_ocsp"), Lint: func() lint.OcspResponseLintInterface { return c01POCSP{c01P{st: lint.Notice}} }})
+				judgeAll("after a late OCSP lint")
+			}
+		}
+	}()
 	byStatus := map[corpus.Kind]map[lint.LintStatus]string{corpus.Cert: {}, corpus.CRL: {}, corpus.OCSP: {}}
 	for st := lint.NA; st <= lint.Fatal; st++ {
 		st := st
